@@ -38,10 +38,15 @@ use crate::{
 };
 use serde::{Deserialize, Serialize};
 use std::hash::Hash;
+#[cfg(not(sentinel_verif))]
 use std::sync::{
     atomic::{AtomicU64, Ordering},
     Arc, Mutex,
 };
+#[cfg(sentinel_verif)]
+use std::sync::{atomic::Ordering, Arc};
+#[cfg(sentinel_verif)]
+use crate::verif_sync::{AtomicU64, Mutex};
 
 cfg_k8s! {
     use schemars::JsonSchema;
